@@ -144,7 +144,7 @@ theorem mapM_idx_ok {α} (site : String) (y : List α) (index : Nat) :
     an accepted section decodes to `k` polynomials of 256 coefficients in {0,1} -/
 theorem hintBitUnpack_ok (m : Mode) (k : Nat) (omega : Int) (y : List Nat) (hy : ∀ b ∈ y, b < 256)
     (ho : 0 ≤ omega) (hk : 1 ≤ omega.toNat + k ∧ omega.toNat + k < 256) (hlen : y.length = omega.toNat + k) :
-    ∃ r, hintBitUnpack m k omega y = .ok r ∧ ∀ h, r = some h → h.length = k ∧ ∀ q ∈ h, Bin q := by
+    ∃ r, hintBitUnpack m k omega y = .ok r ∧ ∀ h, r = some h → h.length = k ∧ ∀ q ∈ h, Bin q ∧ ones q ≤ omega.toNat := by
   unfold hintBitUnpack
   rw [if_neg (by omega)]
   have hmod : omega.toNat % 256 = omega.toNat := Nat.mod_eq_of_lt (by omega)
@@ -174,6 +174,6 @@ theorem hintBitUnpack_ok (m : Mode) (k : Nat) (omega : Int) (y : List Nat) (hy :
       refine ⟨some h, rfl, fun h' hh => ?_⟩
       simp only [Option.some.injEq] at hh
       subst hh
-      exact ⟨by simpa using c2, fun q hq => (c3 q hq).1⟩
+      exact ⟨by simpa using c2, fun q hq => c3 q hq⟩
 
 end Fips204.Impl
